@@ -187,7 +187,7 @@ func strGsub(L *LState) int {
 	limit := L.OptInt(4, len(str)+1)
 	if limit <= 0 {
 		// at most zero substitutions (pm.Find only stops at a positive limit)
-		L.SetTop(1)
+		L.Push(LString(str)) // the subject as a string, also when a number was given
 		L.Push(LNumber(0))
 		return 2
 	}
@@ -197,7 +197,7 @@ func strGsub(L *LState) int {
 		L.RaiseError(err.Error())
 	}
 	if len(mds) == 0 {
-		L.SetTop(1)
+		L.Push(LString(str)) // the subject as a string, also when a number was given
 		L.Push(LNumber(0))
 		return 2
 	}
